@@ -44,6 +44,7 @@ import (
 	genericapirequest "k8s.io/apiserver/pkg/endpoints/request"
 	genericserver "k8s.io/apiserver/pkg/server"
 	"k8s.io/apiserver/pkg/server/dynamiccertificates"
+	"k8s.io/client-go/util/workqueue"
 
 	gatewayinformers "github.com/kubewharf/kubegateway/pkg/client/informers"
 	gatewayfake "github.com/kubewharf/kubegateway/pkg/client/kubernetes/fake"
@@ -93,6 +94,35 @@ func (r *rendezvous) arrive() {
 	r.mu.Unlock()
 }
 
+// recQueue decorates the controller's real work queue: every call goes to the real queue.
+type recQueue struct {
+	workqueue.RateLimitingInterface
+	g *gateway
+}
+
+func (q *recQueue) mark(item interface{}) {
+	q.g.qmu.Lock()
+	q.g.sched[item] = true
+	q.g.qmu.Unlock()
+}
+func (q *recQueue) Add(item interface{})                          { q.mark(item); q.RateLimitingInterface.Add(item) }
+func (q *recQueue) AddAfter(item interface{}, d time.Duration)    { q.mark(item); q.RateLimitingInterface.AddAfter(item, d) }
+func (q *recQueue) AddRateLimited(item interface{})               { q.mark(item); q.RateLimitingInterface.AddRateLimited(item) }
+func (q *recQueue) Done(item interface{}) {
+	g := q.g
+	g.qmu.Lock()
+	if g.asked[item] && !g.sched[item] && atomic.LoadInt32(&g.closing) == 0 && g.dropped == "" {
+		name := "?"
+		if o, ok := item.(metav1.Object); ok {
+			name = o.GetName()
+		}
+		g.dropped = name
+	}
+	delete(g.asked, item)
+	g.qmu.Unlock()
+	q.RateLimitingInterface.Done(item)
+}
+
 type gateway struct {
 	client   *gatewayfake.Clientset
 	ctl      *controllers.UpstreamClusterController
@@ -106,6 +136,14 @@ type gateway struct {
 	maxConc  int64
 	panicMsg atomic.Value
 	runPanic atomic.Value
+	// requeue bookkeeping (recQueue + handler wrapper): a handler result that asks for a requeue must be followed by
+	// the queue scheduling the object again before it marks the item Done
+	qmu      sync.Mutex
+	asked    map[interface{}]bool
+	sched    map[interface{}]bool
+	dropped  string
+	closing  int32
+	scale    int64 // > 1: the handler's RequeueAfter is divided by it (5 s -> 20 ms); the queue's own logic is untouched
 	watching chan struct{}
 	deaf     bool // the informer never started watching: every case on this gateway is inconclusive
 	exists   map[string]bool
@@ -119,7 +157,7 @@ type gateway struct {
 
 func startGateway() *gateway {
 	g := &gateway{client: gatewayfake.NewSimpleClientset(), stop: make(chan struct{}), exists: map[string]bool{},
-		ptrIdx: map[*clusters.ClusterInfo]int{}, rdv: &rendezvous{}}
+		ptrIdx: map[*clusters.ClusterInfo]int{}, rdv: &rendezvous{}, asked: map[interface{}]bool{}, sched: map[interface{}]bool{}}
 	// the fake tracker does not replay: an object written between the informer's List and the registration of its
 	// Watch would never be delivered. Register the watch ourselves and tell when that has happened.
 	g.watching = make(chan struct{})
@@ -149,8 +187,19 @@ func startGateway() *gateway {
 					res, err = syncqueue.Result{}, nil
 				}
 			}()
-			return h(obj)
+			res, err = h(obj)
+			g.qmu.Lock()
+			g.asked[obj] = err == nil && (res.Requeue || res.RequeueAfter > 0)
+			g.sched[obj] = false
+			g.qmu.Unlock()
+			if sc := atomic.LoadInt64(&g.scale); sc > 1 && res.RequeueAfter > 0 {
+				res.RequeueAfter /= time.Duration(sc)
+			}
+			return res, err
 		}
+	})
+	g.ctl.VerifC10WrapQueue(func(q workqueue.RateLimitingInterface) workqueue.RateLimitingInterface {
+		return &recQueue{RateLimitingInterface: q, g: g}
 	})
 	// the controller's own manager (clusters.NewManager()), behind the recording wrapper: reads go straight through
 	g.real = g.ctl.Manager
@@ -175,6 +224,7 @@ func startGateway() *gateway {
 }
 
 func (g *gateway) shutdown() {
+	atomic.StoreInt32(&g.closing, 1)
 	close(g.stop)
 	seen := map[*clusters.ClusterInfo]bool{}
 	for _, ci := range g.ptrs {
@@ -503,6 +553,182 @@ func genRace(r *rand.Rand) Case {
 			}
 		}
 		cs.Burst = append(cs.Burst, Step{K: "set", Name: rig.Hex(name), Spec: sp})
+	}
+	return cs
+}
+
+// ---------------------------------------------------------------------------------------------------------
+// retry cases: a conflict that lasts longer than any retry budget, then goes away.
+// The handler's RequeueAfter is divided by 250 (5 s -> 20 ms) in the handler wrapper; how often and for how long the
+// queue re-delivers is the real queue's business. Judge, free of timing: (1) a handler result that asks for a requeue
+// is never completed (Done) without the queue having scheduled the object again — otherwise the refused cluster is
+// never looked at again although nothing else will ever trigger it; (2) once the conflict is gone and everything is
+// quiet, the state satisfies invB and mirrors the lister. Waits are one-sided (inconclusive on time-out).
+
+func runRetry(c *rig.Ctx, cs Case, count bool) (v verdict) {
+	inconclusive := func(why string) verdict {
+		if count {
+			c.Count("gateway-inconclusive:" + why)
+		}
+		return verdict{}
+	}
+	g := startGateway()
+	defer g.shutdown()
+	if g.deaf {
+		return inconclusive("informer-never-watched")
+	}
+	atomic.StoreInt64(&g.scale, 250)
+	droppedNow := func() string {
+		g.qmu.Lock()
+		defer g.qmu.Unlock()
+		return g.dropped
+	}
+	fail := func() verdict {
+		return verdict{Kind: "judge", Class: "c10.run.requeue-dropped",
+			What: fmt.Sprintf("real queue + Run(): the handler asked for a requeue of %q (its names are held by another cluster) and the queue marked the item done WITHOUT scheduling it again after %d handler invocations: nothing will ever look at that cluster again, it stays unserved when the conflict ends",
+				droppedNow(), atomic.LoadInt64(&g.finished))}
+	}
+	for _, st := range cs.Steps {
+		if st.K == "sync" {
+			continue
+		}
+		if _, err := g.write(st); err != nil {
+			return inconclusive("fake-clientset")
+		}
+		if !waitFor(g.quiet, 30*time.Second) {
+			return inconclusive("never-quiescent")
+		}
+	}
+	for _, st := range cs.Burst {
+		if _, err := g.write(st); err != nil {
+			return inconclusive("fake-clientset")
+		}
+		if !waitFor(func() bool { return atomic.LoadInt64(&g.finished) >= g.writes }, 30*time.Second) {
+			return inconclusive("never-handled")
+		}
+	}
+	// the conflict lasts: far more re-deliveries than any budget the handler names
+	want := g.writes + int64(6+len(cs.Burst)*6)
+	waitFor(func() bool { return atomic.LoadInt64(&g.finished) >= want || droppedNow() != "" }, 20*time.Second)
+	if droppedNow() != "" {
+		return fail()
+	}
+	retried := atomic.LoadInt64(&g.finished) - g.writes
+	if count {
+		c.Count(fmt.Sprintf("retry:re-deliveries-during-the-conflict>=%d", min64(retried, 6)))
+	}
+	for _, st := range cs.After {
+		if _, err := g.write(st); err != nil {
+			return inconclusive("fake-clientset")
+		}
+		if !waitFor(func() bool { return atomic.LoadInt64(&g.finished) >= g.writes }, 30*time.Second) {
+			return inconclusive("never-handled")
+		}
+	}
+	// every current object gets served eventually (one-sided)
+	all := append(append(append([]Step{}, cs.Steps...), cs.Burst...), cs.After...)
+	lister := map[string]bool{}
+	for _, s := range all {
+		switch s.K {
+		case "set":
+			lister[rig.UnHex(s.Name)] = true
+		case "unset":
+			delete(lister, rig.UnHex(s.Name))
+		}
+	}
+	servedAll := func() bool {
+		for n := range lister {
+			if ci, ok := g.ctl.Get(n); !ok || ci.Cluster != strings.ToLower(n) {
+				return false
+			}
+		}
+		return true
+	}
+	conv := waitFor(func() bool { return servedAll() || droppedNow() != "" }, 20*time.Second)
+	if droppedNow() != "" {
+		return fail()
+	}
+	if !conv {
+		return inconclusive("not-converged-in-time")
+	}
+	st := g.observe()
+	if st == nil {
+		return inconclusive("never-quiescent")
+	}
+	if droppedNow() != "" {
+		return fail()
+	}
+	if m := g.panicMsg.Load(); m != nil {
+		return verdict{Kind: "judge", Class: "c10.run.handler-panic", What: "the sync handler panicked inside the real Run loop: " + fmt.Sprint(m)}
+	}
+	var steps []Step
+	for _, s := range all {
+		if s.K != "sync" {
+			steps = append(steps, s)
+		}
+	}
+	args := map[string]interface{}{"steps": steps, "base": map[string]interface{}{"cert": baseCertID, "ca": -1, "auth": false},
+		"localAddr": rig.Hex(localAddr), "cp": -1, "reqs": [][]interface{}{}, "state": st}
+	var r authReply
+	if err := c.Model("C10.auth", args, &r); err != nil {
+		return verdict{Kind: "diff", Class: "c10.judge-error", What: "judge could not be evaluated: " + err.Error()}
+	}
+	if !r.Inv {
+		return verdict{Kind: "judge", Class: "c10.run.inv", Impl: st, What: "real informer + queue + Run(), after a long conflict ended, when everything is quiet: " + describe(*st)}
+	}
+	if !r.Mirror {
+		return verdict{Kind: "judge", Class: "c10.run.mirror", Impl: st,
+			What: "real informer + queue + Run(): a long name conflict ended and every current object is served, but the served names / TLS material are not exactly those of the current objects"}
+	}
+	if count {
+		c.Count("retry:converged-after-the-conflict")
+	}
+	return
+}
+
+func min64(a, b int64) int64 {
+	if a < b {
+		return a
+	}
+	return b
+}
+
+func genRetry(r *rand.Rand) Case {
+	g := &gstate{r: r, kind: "admissible", lister: map[string]*Spec{}}
+	nc := 3 + r.Intn(3)
+	g.names = append([]string{}, universe[:nc]...)
+	g.pool = append([]string{}, universe...)
+	owner, loser := g.names[0], g.names[1]
+	contested := rig.Pick(r, universe[nc-1:])
+	if contested == owner || contested == loser {
+		contested = "z.example"
+	}
+	spA := g.spec(owner, true)
+	spA.Aliases = append(spA.Aliases, rig.Hex(caseVar(r, contested)))
+	g.set(owner, spA)
+	if r.Intn(2) == 0 {
+		c := g.names[2]
+		if !g.claimedByOthers(c)[c] {
+			g.set(c, g.spec(c, true))
+		}
+	}
+	cs := Case{Kind: "retry", Steps: g.steps}
+	// the loser claims the contested name (as a server name, or as its own NAME) while the owner holds it
+	spB := &Spec{Aliases: []string{rig.Hex(caseVar(r, contested))}, Cert: -1, CA: -1}
+	if r.Intn(2) == 0 {
+		spB.Cert = 1 + r.Intn(4)
+	}
+	if r.Intn(4) == 0 && strings.ToLower(contested) == contested {
+		loser, spB = contested, &Spec{Aliases: []string{}, Cert: -1, CA: -1}
+	}
+	cs.Burst = []Step{{K: "set", Name: rig.Hex(loser), Spec: spB}}
+	// the conflict ends: the owner drops the name, or is deleted
+	if r.Intn(3) == 0 {
+		cs.After = []Step{{K: "unset", Name: rig.Hex(owner)}}
+	} else {
+		cp := *spA
+		cp.Aliases = append([]string{}, spA.Aliases[:len(spA.Aliases)-1]...)
+		cs.After = []Step{{K: "set", Name: rig.Hex(owner), Spec: &cp}}
 	}
 	return cs
 }
